@@ -394,3 +394,19 @@ Theorem model_passes_checker_cap : forall kind sig opts batching,
   Clauses.prop_ok (Harness.CBuilt kind sig opts batching (Harness.model_cap kind opts batching)) = true.
 Proof. exact ModelObs.model_passes_cap_l. Qed.
 Print Assumptions model_passes_checker_cap.
+
+(* ---- route consumers of a connector router, kept across later Consumer calls --------------------------------- *)
+(* Consumer(sel...) returns fanoutconsumer.NewX over a FRESH list of the selected pipelines; NewX keeps its own
+   lists.  The k-th kept route consumer is therefore the fan-out over ITS OWN selection, whatever was asked of the
+   router before or after (and all the fan-out theorems apply to it) ... *)
+Theorem router_routes_independent : forall pcaps sels k sel,
+  nth_error sels k = Some sel ->
+  nth_error (Harness.model_routes pcaps sels) k = Some (fan_cap (router_fan pcaps sel), Harness.router_calls pcaps sel).
+Proof. exact ModelObs.routes_independent_l. Qed.
+Print Assumptions router_routes_independent.
+
+(* ... and what the model says about them passes the clause checker (once per selected pipeline, capability exact) *)
+Theorem model_passes_checker_routes : forall sig pcaps sels,
+  Clauses.prop_ok (Harness.CRoutes sig pcaps sels (Harness.model_routes pcaps sels)) = true.
+Proof. exact ModelObs.model_passes_routes_l. Qed.
+Print Assumptions model_passes_checker_routes.
